@@ -1077,10 +1077,363 @@ def run_mutate(case, lazy):
     return out
 
 
+# ------------------------------------------------------------------------------------ family: grid (operation × chunk count × NaN placement)
+#
+# One case = one xarray operation along the dimension "t" of a (t, y) array whose "t" axis is cut into EXACTLY the chunks
+# listed in case["tchunks"] (1, 2, 4 or 7 of them), with NaNs placed relative to those chunk boundaries
+# (case["nanpat"]), next to a second array with permuted dims (y, t) and its own cut of "t", a vector along "t" and a
+# Dataset of the three.  The operation's keyword arguments come from case["p"] (chosen by the generator in c26_xr.py:
+# limits relative to the chunk sizes, windows wider than a chunk, every pad mode, reindex / sel methods …).
+
+def nan_mask(rng, pat, tch, ny):
+    nt = sum(tch)
+    m = np.zeros((nt, ny), dtype=bool)
+    if pat == "none":
+        return m
+    starts = [int(s) for s in np.cumsum([0] + list(tch[:-1]))]
+    k = len(tch)
+    for j in range(ny):
+        if j and rng.random() < 0.3:
+            continue
+        if pat == "chunk_start":                       # a leading run in (most) chunks
+            for s, c in zip(starts, tch):
+                if rng.random() < 0.8:
+                    m[s:s + int(rng.integers(1, max(2, c))), j] = True
+        elif pat == "chunk_end":                       # a trailing run in (most) chunks
+            for s, c in zip(starts, tch):
+                if rng.random() < 0.8:
+                    m[s + c - int(rng.integers(1, max(2, c))):s + c, j] = True
+        elif pat == "whole_chunk":                     # whole chunks (never all of them); one chunk only: its first half
+            if k == 1:
+                m[:max(1, nt // 2), j] = True
+            else:
+                for i in rng.choice(k, size=int(rng.integers(1, k)), replace=False):
+                    m[starts[i]:starts[i] + tch[i], j] = True
+        elif pat == "late_starts":                     # leading runs (up to the whole chunk) in the chunks after the second
+            for i, (s, c) in enumerate(zip(starts, tch)):
+                if i >= min(2, k - 1):
+                    m[s:s + int(rng.integers(1, c + 1)), j] = True
+        elif pat == "dense":
+            m[:, j] = rng.random(nt) < 0.5
+        elif pat == "sparse":
+            m[:, j] = rng.random(nt) < 0.15
+        elif pat == "lead_trail":
+            m[:int(rng.integers(0, nt // 2 + 1)), j] = True
+            t = int(rng.integers(0, nt // 2 + 1))
+            if t:
+                m[nt - t:, j] = True
+        else:
+            raise ValueError(pat)
+    for j in range(ny):                                # never a whole column (NumPy's nanarg* refuse it eagerly)
+        if m[:, j].all():
+            m[int(rng.integers(0, nt)), j] = False
+    return m
+
+
+def build_grid(case, lazy):
+    rng = np.random.default_rng(case["data_seed"])
+    nt, ny = case["nt"], case["ny"]
+    tch = list(case["tchunks"])
+    e = Env()
+    e.nt, e.ny, e.lazy, e.tch, e.p = nt, ny, lazy, tch, case.get("p", {})
+    if case.get("vals") == "perm":                     # all values distinct: an inherited OLDER value is always visible
+        base = (rng.permutation(nt * ny).reshape(nt, ny) - 5).astype("f8")
+    else:
+        base = rng.integers(-6, 10, size=(nt, ny)).astype("f8")
+    mask = nan_mask(rng, case.get("nanpat", "none"), tch, ny)
+    an = base.copy()
+    an[mask] = np.nan
+    bb = rng.integers(-6, 10, size=(ny, nt)).astype("f8")
+    bn = bb.copy()
+    bn[rng.random(bb.shape) < 0.25] = np.nan
+    vv = rng.integers(-6, 10, size=nt).astype("f8")
+    tc = np.cumsum(case["tgaps"]).astype("f8") if case.get("tgaps") else np.arange(nt)
+    cx = {"t": tc, "y": np.arange(ny) * 0.5}
+    mk = lambda arr, dims, name: xr.DataArray(arr, dims=dims, coords={d: cx[d] for d in dims}, name=name)
+    a, a0 = mk(an, ("t", "y"), "a"), mk(base, ("t", "y"), "a")
+    b, bnn = mk(bb, ("y", "t"), "b"), mk(bn, ("y", "t"), "b")
+    v = mk(vv, ("t",), "v")
+    if lazy:
+        ca = {"t": tuple(tch), "y": tochunk(case["ychunks"])}
+        cb = {"t": tuple(case.get("btchunks", tch)), "y": tochunk(case.get("bychunks", ny))}
+        a, a0 = a.chunk(ca), a0.chunk(ca)
+        b, bnn = b.chunk(cb), bnn.chunk(cb)
+        v = v.chunk({"t": cb["t"]})
+    e.a, e.a0, e.b, e.bn, e.v = a, a0, b, bnn, v
+    e.ds = xr.Dataset({"a": a, "b": bnn, "v": v})
+    e.times = np.datetime64("2001-01-01") + np.arange(nt) * np.timedelta64(1, "D")
+    return e
+
+
+def _src(e):
+    return e.a if e.p.get("src", "a") == "a" else e.a0
+
+
+def _timed(e, d):
+    return d.assign_coords(time=("t", e.times)).swap_dims(t="time").drop_vars("t")
+
+
+def _sl(x):
+    return slice(*x) if isinstance(x, list) else x
+
+
+def _kw(e, *names):
+    return {n: e.p[n] for n in names if n in e.p}
+
+
+def _rechunked(e, d):
+    if not e.lazy:
+        return d
+    c = e.p["chunk"]
+    return d.chunk(c) if isinstance(c, str) else d.chunk({"t": tochunk(c)})
+
+
+def _g_evaluate(e):
+    d = e.a * 2.0 + e.b
+    how = e.p["how"]
+    if how == "to_numpy":
+        return xr.DataArray(d.to_numpy(), dims=d.dims)
+    if how == "values":
+        return xr.DataArray(d.values, dims=d.dims)
+    if how == "np_asarray":
+        return xr.DataArray(np.asarray(d), dims=d.dims)
+    if how == "load":
+        return d.copy().load()
+    if how == "compute":
+        return d.compute()
+    if how == "persist":
+        return d.persist()
+    if how == "persist_ffill":
+        return d.persist().ffill("t")
+    if how == "ds_compute":
+        return xr.Dataset({"p": d, "q": e.a.ffill("t"), "r": e.v}).compute()
+    if how == "ds_persist_scan":
+        return xr.Dataset({"p": d, "q": e.a}).persist().bfill("t")
+    if how == "to_pandas":
+        return xr.DataArray(d.to_pandas().to_numpy(), dims=d.dims)
+    if how == "scalar":
+        return xr.DataArray(float(e.a.sum()))
+    raise ValueError(how)
+
+
+def _g_reduce(e):
+    red = e.p["red"]
+    d = _src(e)
+    if red == "median" and e.lazy:
+        d = d.chunk({"t": -1})
+    if red in ("any", "all"):
+        return getattr(d > e.p.get("thr", 0.0), red)("t")
+    if red == "count":
+        return d.count("t")
+    return getattr(d if red != "prod" else d / 8.0, red)("t", **_kw(e, "skipna", "ddof", "min_count"))
+
+
+def _g_pad(e):
+    kw = dict(e.p["kw"])
+    for k2 in ("constant_values", "end_values", "stat_length"):
+        if isinstance(kw.get(k2), list):
+            kw[k2] = tuple(kw[k2])
+    return _src(e).pad(t=tuple(e.p["width"]), mode=e.p["mode"], **kw)
+
+
+def _g_map_blocks_ds(e):
+    def f(d):
+        return d.assign(s=d.a.fillna(0.0) + d.b.fillna(1.0) * 2.0 + d.t)
+    return xr.map_blocks(f, e.ds[["a", "b"]].unify_chunks() if e.lazy else e.ds[["a", "b"]])
+
+
+def _np_ffill(x, axis, dtype=None):
+    x = np.moveaxis(np.array(x, dtype="f8"), axis, 0)
+    for i in range(1, x.shape[0]):
+        m = np.isnan(x[i])
+        x[i][m] = x[i - 1][m]
+    return np.moveaxis(x, 0, axis)
+
+
+def _np_cumfirst(x, axis, dtype=None):
+    """out[i] = the first non-NaN among x[0..i]"""
+    x = np.moveaxis(np.array(x, dtype="f8"), axis, 0)
+    for i in range(1, x.shape[0]):
+        m = ~np.isnan(x[i - 1])
+        x[i][m] = x[i - 1][m]
+    return np.moveaxis(x, 0, axis)
+
+
+def _tail(cum):
+    def pre(x, axis=None, keepdims=True, **kw):
+        axis = axis[0] if isinstance(axis, (tuple, list)) else axis
+        if x.shape[axis] == 0:
+            return np.full([1 if i == axis else n for i, n in enumerate(x.shape)], np.nan)
+        out = np.take(cum(x, axis), [-1], axis=axis)
+        return out if keepdims else np.squeeze(out, axis)
+    return pre
+
+
+def _merge_last(a, b):
+    return np.where(np.isnan(b), a, b)
+
+
+def _merge_first(a, b):
+    return np.where(np.isnan(a), b, a)
+
+
+def _head_first(x, axis=None, keepdims=False, **kw):
+    """first non-NaN along axis (order-sensitive chunk / combine / aggregate function of a tree reduction)"""
+    axis = axis[0] if isinstance(axis, (tuple, list)) else axis
+    out = np.take(_np_ffill(np.flip(x, axis), axis), [-1], axis=axis)
+    return out if keepdims else np.squeeze(out, axis)
+
+
+def _g_mgr_scan(e):
+    """the manager's scan called directly with NON-commutative (associative) merges, both methods"""
+    axis = e.p["axis"]
+    A = (e.a if axis == 0 else e.a.transpose("y", "t")).data
+    cum, merge = (_np_ffill, _merge_last) if e.p["merge"] == "last" else (_np_cumfirst, _merge_first)
+    if not e.lazy:
+        return cum(A, axis)
+    kw = {"method": e.p["method"]}
+    if e.p["method"] == "blelloch":
+        kw["preop"] = _tail(cum)
+    return guess_chunkmanager(None).scan(cum, merge, np.nan, A, axis=axis, dtype=A.dtype, **kw)
+
+
+def _g_mgr_reduction(e):
+    """the manager's reduction called directly with an order-sensitive function (what xarray's first()/last() do)"""
+    which, axis = e.p["which"], e.p["axis"]
+    A = (e.a if axis == 0 else e.a.transpose("y", "t")).data
+    f = _head_first if which == "first" else _tail(_np_ffill)
+    if not e.lazy:
+        return f(A, axis=axis, keepdims=False)
+    kw = dict(e.p.get("kw", {}))
+    if e.p.get("combine"):
+        kw["combine_func"] = f
+    return guess_chunkmanager(None).reduction(A, func=f, aggregate_func=f, axis=axis, dtype=A.dtype, keepdims=False, **kw)
+
+
+def _g_groupby_first_last(e):
+    lab = np.array(e.p["labels"])
+    d = e.a.assign_coords(g=("t", lab))
+    return xr.Dataset({"f": d.groupby("g").first(**_kw(e, "skipna")), "l": d.groupby("g").last(**_kw(e, "skipna"))})
+
+
+GRID = {
+    # ---- manager.scan(method="blelloch", preop=nanlast, binop=non-commutative) through push
+    "ffill": lambda e: e.a.ffill("t", limit=e.p.get("limit")),
+    "bfill": lambda e: e.a.bfill("t", limit=e.p.get("limit")),
+    "ffill_ds": lambda e: e.ds.ffill("t", limit=e.p.get("limit")),
+    "bfill_ds": lambda e: e.ds.bfill("t", limit=e.p.get("limit")),
+    "ffill_transposed": lambda e: e.a.transpose("y", "t").ffill("t", limit=e.p.get("limit")),
+    "bfill_perm": lambda e: e.bn.bfill("t", limit=e.p.get("limit")),
+    "ffill_bfill": lambda e: e.a.ffill("t").bfill("t"),
+    "ffill_of_sum": lambda e: (e.a + e.b).ffill("t", limit=e.p.get("limit")),
+    "ffill_of_concat": lambda e: xr.concat([e.a, e.a + 100.0], "t").ffill("t"),
+    "ffill_of_where": lambda e: e.a0.where(e.a0 > e.p["thr"]).ffill("t"),
+    "bfill_of_shift": lambda e: e.a0.shift(t=e.p["shift"]).bfill("t"),
+    "ffill_of_rechunk": lambda e: _rechunked(e, e.a).ffill("t"),
+    "ffill_y": lambda e: e.a.ffill("y"),
+    "interpolate_na": lambda e: (e.a.chunk({"t": -1}) if e.lazy else e.a).interpolate_na("t", **_kw(e, "use_coordinate", "limit", "max_gap")),
+    "mgr_scan": _g_mgr_scan,
+    "mgr_reduction_first_last": _g_mgr_reduction,
+    "groupby_first_last": _g_groupby_first_last,
+    "resample_first_last": lambda e: getattr(_timed(e, e.a).resample(time=e.p["freq"]), e.p["how"])(),
+    "resample_up": lambda e: getattr(_timed(e, e.a).resample(time="12h"), e.p["how"])(),
+    # ---- cumulative
+    "cumsum": lambda e: e.a.cumsum("t", **_kw(e, "skipna")),
+    "cumprod": lambda e: (e.a / 8.0).cumprod("t", **_kw(e, "skipna")),
+    "cumsum_ds": lambda e: e.ds.cumsum("t"),
+    "cumsum_two_dims": lambda e: e.a.cumsum(["t", "y"]),
+    "cumulative": lambda e: getattr(e.a.cumulative("t", min_periods=e.p.get("min_periods", 1)), e.p["red"])(),
+    "cumulative_integrate": lambda e: e.a0.cumulative_integrate("t"),
+    # ---- rolling / coarsen
+    "rolling_red": lambda e: getattr(e.a.rolling(t=e.p["window"], **_kw(e, "center", "min_periods")), e.p["red"])(),
+    "rolling_ds": lambda e: getattr(e.ds.rolling(t=e.p["window"], **_kw(e, "center", "min_periods")), e.p["red"])(),
+    "rolling_2d": lambda e: e.a.rolling(t=e.p["window"], y=2, min_periods=1).sum(),
+    "rolling_construct": lambda e: e.a.rolling(t=e.p["window"], **_kw(e, "center")).construct("win", **_kw(e, "stride", "fill_value")),
+    "rolling_reduce": lambda e: e.a0.rolling(t=e.p["window"], **_kw(e, "center")).reduce(np.ptp),
+    "coarsen_red": lambda e: getattr(e.a.coarsen(t=e.p["window"], **_kw(e, "boundary", "side")), e.p["red"])(),
+    "coarsen_ds": lambda e: getattr(e.ds.coarsen(t=e.p["window"], **_kw(e, "boundary", "side")), e.p["red"])(),
+    "coarsen_construct": lambda e: e.a.coarsen(t=e.p["window"], boundary="trim").construct(t=("tc", "tf")),
+    # ---- positions of extremes
+    "idxmax": lambda e: e.a.idxmax("t", **_kw(e, "skipna", "fill_value")),
+    "idxmin": lambda e: e.a.idxmin("t", **_kw(e, "skipna", "fill_value")),
+    "idxmax_ds": lambda e: e.ds[["a", "b"]].idxmax("t"),
+    "argmax_dim": lambda e: e.a.argmax("t", **_kw(e, "skipna")),
+    "argmin_dict": lambda e: e.a.argmin(dim=list(e.p["dims"]), **_kw(e, "skipna")),
+    "argmax_dict": lambda e: e.a.argmax(dim=list(e.p["dims"]), **_kw(e, "skipna")),
+    "argmin_ds": lambda e: e.ds[["a", "b"]].argmin("t"),
+    # ---- where / fillna / clip / combine_first
+    "where_cond_perm": lambda e: e.a.where(e.b > e.p["thr"]),
+    "where_other": lambda e: e.a.where(e.a > e.p["thr"], e.v if e.p.get("other") == "v" else -99.0),
+    "xr_where": lambda e: xr.where(e.b > e.p["thr"], e.a, e.v),
+    "where_drop": lambda e: e.a.where((e.v > e.p["thr"]).compute() if e.lazy else e.v > e.p["thr"], drop=True),
+    "fillna_scalar": lambda e: e.a.fillna(-7.0),
+    "fillna_perm": lambda e: e.a.fillna(e.bn),
+    "fillna_ds_dict": lambda e: e.ds.fillna({"a": -1.0, "b": e.v}),
+    "clip": lambda e: e.a.clip(e.p.get("lo"), e.p.get("hi")),
+    "clip_arrays": lambda e: e.a.clip(e.v - 3.0, e.b + 3.0),
+    "combine_first": lambda e: e.a.combine_first(e.bn),
+    "combine_first_shifted": lambda e: e.a.isel(t=slice(e.p["cut"], None)).combine_first(e.bn.isel(t=slice(0, -e.p["cut"]))),
+    # ---- diff / shift / roll / pad
+    "diff": lambda e: e.a.diff("t", **_kw(e, "n", "label")),
+    "shift": lambda e: e.a.shift(t=e.p["shift"], **_kw(e, "fill_value")),
+    "shift_ds": lambda e: e.ds.shift(t=e.p["shift"]),
+    "roll": lambda e: e.a.roll(t=e.p["shift"], roll_coords=e.p.get("roll_coords", False)),
+    "roll_ds": lambda e: e.ds.roll(t=e.p["shift"], roll_coords=e.p.get("roll_coords", False)),
+    "pad": _g_pad,
+    # ---- label-based selection
+    "reindex": lambda e: e.a.reindex(t=e.p["labels"], **_kw(e, "method", "tolerance", "fill_value")),
+    "reindex_like": lambda e: e.ds[["a", "b"]].reindex_like(e.v.isel(t=_sl(e.p["keep"]))),
+    "sel_method": lambda e: e.a.sel(t=e.p["labels"], **_kw(e, "method")),
+    "sel_slice": lambda e: e.a.sel(t=slice(e.p["lo"], e.p["hi"])),
+    "isel_list": lambda e: e.a.isel(t=e.p["idx"]),
+    "isel_vectorized": lambda e: e.a.isel(t=xr.DataArray(e.p["idx"], dims="p"), y=xr.DataArray(e.p["idy"], dims="p")),
+    "isel_negstep": lambda e: e.a.isel(t=slice(None, None, -e.p["step"])),
+    "sortby_desc": lambda e: e.a.sortby("t", ascending=False),
+    "sortby_values": lambda e: e.a.sortby(e.v.compute() if e.lazy else e.v),
+    "head_tail_thin": lambda e: xr.Dataset({"h": e.a.head(t=e.p["n"]), "l": e.a.tail(t=e.p["n"]), "n": e.b.thin(t=e.p["n"])}),
+    # ---- contractions
+    "dot_t": lambda e: xr.dot(e.a0, e.b, dim="t"),
+    "dot_all": lambda e: xr.dot(e.a0, e.b),
+    "dot_three": lambda e: xr.dot(e.a0, e.b, e.v, dim="t"),
+    "dot_outer": lambda e: xr.dot(e.a0, e.a0.rename(y="y2"), dim="t"),
+    "matmul": lambda e: e.a0 @ e.b,
+    "weighted": lambda e: e.a.weighted(e.v.clip(1.0, None)).mean("t"),
+    # ---- apply_ufunc / map_blocks
+    "ufunc_par_core_y": lambda e: xr.apply_ufunc(lambda q: np.nansum(q, -1), e.a.chunk({"y": -1}) if e.lazy else e.a,
+                                                 input_core_dims=[["y"]], **_par(output_dtypes=[float])),
+    "ufunc_par_core_t_rechunk": lambda e: xr.apply_ufunc(lambda q: np.nancumsum(q, -1), e.a, input_core_dims=[["t"]], output_core_dims=[["t"]],
+                                                         **_par(output_dtypes=[float], dask_gufunc_kwargs={"allow_rechunk": True})),
+    "ufunc_par_two_core": lambda e: xr.apply_ufunc(lambda q, r: (q * r).sum(-1), _single(e.a0, "t", e.lazy), _single(e.b, "t", e.lazy),
+                                                   input_core_dims=[["t"], ["t"]], **_par(output_dtypes=[float])),
+    "ufunc_allowed_core": lambda e: xr.apply_ufunc(lambda q, r: (q * r).sum(-1), e.a0, e.b, input_core_dims=[["t"], ["t"]], dask="allowed"),
+    "ufunc_allowed_keep": lambda e: xr.apply_ufunc(lambda q: q.cumsum(-1), e.a0, input_core_dims=[["t"]], output_core_dims=[["t"]], dask="allowed"),
+    "ufunc_allowed_elementwise": lambda e: xr.apply_ufunc(np.fmax, e.a, e.b, dask="allowed"),
+    "map_blocks_da": lambda e: e.a.map_blocks(lambda q: q.fillna(-1.0) * 2.0 + q.t),
+    "map_blocks_ds": _g_map_blocks_ds,
+    # ---- chunk management
+    "unify_chunks": lambda e: xr.unify_chunks(e.a, e.b, e.v) if e.lazy else (e.a, e.b, e.v),
+    "unify_ds": lambda e: e.ds.unify_chunks(),
+    "chunk_dict": lambda e: _rechunked(e, e.a) + 1.0,
+    "chunk_ds": lambda e: (e.ds.chunk(e.p["chunk"] if isinstance(e.p["chunk"], str) else {"t": tochunk(e.p["chunk"])}) if e.lazy else e.ds) * 2.0,
+    # ---- evaluation entry points
+    "evaluate": _g_evaluate,
+    # ---- reductions along the split dimension
+    "reduce": _g_reduce,
+    "reduce_all_dims": lambda e: getattr(e.ds, e.p["red"])(),
+    "isnull_count": lambda e: xr.Dataset({"n": e.a.isnull(), "c": e.a.notnull().sum("t"), "k": e.ds.count("t").to_array()}),
+    "differentiate": lambda e: e.a0.differentiate("t", **_kw(e, "edge_order")),
+    "integrate": lambda e: e.ds.fillna(0.0).integrate("t"),
+}
+
+
+def run_grid(case, lazy):
+    return GRID[case["op"]](build_grid(case, lazy))
+
+
 # ------------------------------------------------------------------------------------ main
 
 FAMILIES = {"dsload": run_dsload, "mapblocks": run_mapblocks, "ufunc": run_ufunc, "route": run_route, "mgr": run_mgr,
-            "mutate": run_mutate}
+            "mutate": run_mutate, "grid": run_grid}
 LOOSE_DIMS = {"mapblocks"}
 DIGEST = {"mutate"}          # families whose chunked results are also compared between the registered and the stock run
 
@@ -1092,6 +1445,14 @@ def digest(c):
 
 
 def one(case):
+    import time
+    t0 = time.perf_counter()
+    res = _one(case)
+    res["secs"] = round(time.perf_counter() - t0, 4)
+    return res
+
+
+def _one(case):
     run = FAMILIES[case["fam"]]
     try:
         want = canon(run(case, False))
